@@ -8,7 +8,6 @@ namespace MosVerif.C03
 
 theorem pins_listeners :
     Facts.udp_maxPayload = 65507 ∧ Facts.udp_readBuf = 65535 ∧
-    Facts.udp_sizeClamp = "if clientUdpSize > maxUdpPayloadSize { clientUdpSize = maxUdpPayloadSize }" ∧
     Facts.tcp_idleBusy = "n == 0 && concurrent.Load() > 0 && errors.Is(err, os.ErrDeadlineExceeded)" ∧
     Facts.quic_idleBusy = "idleTimeout && busy && c.Context().Err() == nil" := by decide
 
